@@ -20,14 +20,14 @@ type GraphBinCase struct {
 	// ProjDir names the directory holding the spokfile ("" = proj)
 	ProjDir string `json:"proj_dir,omitempty"`
 	// Invoke: how spok is pointed at the project (sandbox.Box.Invoke)
-	Invoke string   `json:"invoke,omitempty"`
+	Invoke string `json:"invoke,omitempty"`
 	// Outputs: "files" = standard output and error are regular files (sandbox.Box.FileOutputs)
-	Outputs string `json:"outputs,omitempty"`
-	N      int      `json:"n"`
-	Edges  [][2]int `json:"edges"` // i depends on j
-	Via    string   `json:"via"`   // name default clean
-	Undef  int      `json:"undef"` // task that also depends on an undefined name (-1: none)
-	Flags  []string `json:"flags"`
+	Outputs string   `json:"outputs,omitempty"`
+	N       int      `json:"n"`
+	Edges   [][2]int `json:"edges"` // i depends on j
+	Via     string   `json:"via"`   // name default clean
+	Undef   int      `json:"undef"` // task that also depends on an undefined name (-1: none)
+	Flags   []string `json:"flags"`
 	// Req (Via == "name" only): the tasks named on the command line, in order, repeats allowed
 	// (empty = just task 0); ReqUndef > 0 puts an undefined name at position ReqUndef-1 of that list
 	Req      []int `json:"req,omitempty"`
